@@ -4,6 +4,7 @@ set -eu
 cd "$(dirname "$0")"
 export GOFLAGS=-mod=mod GOPROXY=off GOSUMDB=off GOTOOLCHAIN=local
 mkdir -p bin evidence replays
+V=$PWD
 (cd tools/vinstr && go build -o ../../bin/vinstr .)
 tools/gen/run.sh >/dev/null
 # warm the build cache: instrument the current tree and build every harness group once
@@ -12,6 +13,10 @@ for g in nsqdx lookupx adminx ntfx relayx; do
   ./build.sh $g "$S" || { rm -rf "$S"; echo "setup: build of $g failed"; exit 1; }
   rm -rf "$S"
 done
+# validate the explorers against brute-force enumeration (machinery self-test, never a verdict)
+S=$(mktemp -d /dev/shm/verif-setup-XXXXXX)
+if ./build.sh selftest "$S" && (cd "$S" && ./h > "$V/evidence/selftest.txt" 2>&1); then tail -1 evidence/selftest.txt; else echo "setup: WARNING explorer self-test did not pass, see evidence/selftest.txt"; fi
+rm -rf "$S"
 # bind the instrumented program to the real one: the repository's own tests must pass on the
 # rewritten sources with no explorer attached (diagnostic; a mismatch does not block checks)
 tools/conformance.sh > evidence/conformance.txt 2>&1 || echo "setup: WARNING instrumentation conformance run did not pass, see evidence/conformance.txt"
